@@ -41,8 +41,9 @@ type CancelPlan struct {
 type Scenario struct {
 	LaneSize  int        `json:"lane_size"`
 	QueueSize int        `json:"queue_size"`
-	TimeoutMs int        `json:"timeout_ms"`       // PushTask timeout: 1 (timeouts occur) or 3600000
-	Warmup    []PushSpec `json:"warmup,omitempty"` // pushed (by one producer) and drained before the pins
+	TimeoutMs int        `json:"timeout_ms"`           // PushTask timeout: 1 (timeouts occur) or 3600000
+	TimeoutUs int        `json:"timeout_us,omitempty"` // when > 0 (or -1 for a zero timeout) it replaces TimeoutMs: try-push style timeouts
+	Warmup    []PushSpec `json:"warmup,omitempty"`     // pushed (by one producer) and drained before the pins
 	Pins      []int      `json:"pins,omitempty"`
 	Rush      bool       `json:"rush,omitempty"`       // push, cancel and Wait right after New, without settling
 	Waiters   int        `json:"waiters,omitempty"`    // concurrent Wait() callers (default 1)
